@@ -13,6 +13,10 @@ var propC01 = parserProp{
 	maxBuf: 400,
 	opts: func(kind string) histOpts {
 		o := defaultHistOpts()
+		if kind == "GSAP" || kind == "OSAP" {
+			// OSAP never re-verifies what the suffix structures tell it
+			o.suffixPct = 25
+		}
 		return o
 	},
 	classify: func(x *parserExec) ([]string, bool) {
